@@ -512,73 +512,88 @@ def order_independence_rule(ctx, rule: str):
 
 
 def characterize_rule(ctx, rule: str):
+    """characterize(), evaluated abstractly: the candidates are two direct
+    subclasses and the class itself; isabstract(cls) and each candidate's
+    is_valid() fork.  On every path the value returned is the first candidate
+    -- subclasses in order, then the class itself when it is concrete -- whose
+    is_valid() was true on that path, and RuntimeError is raised exactly when
+    no candidate was valid."""
     p = ctx.program
-    r = ctx.report
     fi = p.get_func("moclo.core.parts.AbstractPart.characterize")
-    fn = fi.node
-    parents: Dict[int, ast.AST] = {}
-    for node in ast.walk(fn):
-        for ch in ast.iter_child_nodes(node):
-            parents[id(ch)] = node
-    rets = [n for n in ast.walk(fn) if isinstance(n, ast.Return)]
-    ok = bool(rets)
-    det = ""
-    for ret in rets:
-        if not isinstance(ret.value, ast.Name):
-            ok, det = False, "characterize returns `%s`, not a validated instance" % fi.module.segment(ret)
-            break
-        var = ret.value.id
-        guard = None
-        cur = ret
-        while id(cur) in parents:
-            cur = parents[id(cur)]
-            if isinstance(cur, ast.If):
-                t = cur.test
-                if isinstance(t, ast.Call) and isinstance(t.func, ast.Attribute) and t.func.attr == "is_valid" and isinstance(t.func.value, ast.Name) and t.func.value.id == var and ret in ast.walk(ast.Module(body=cur.body, type_ignores=[])):
-                    guard = cur
-                    break
-        if guard is None:
-            ok, det = False, "the instance returned at line %d is not guarded by its own is_valid()" % ret.lineno
-            break
-        # the instance is built from a candidate class applied to the record
-        asg = [n for n in ast.walk(fn) if isinstance(n, ast.Assign) and any(isinstance(t, ast.Name) and t.id == var for t in n.targets)]
-        if not (len(asg) == 1 and isinstance(asg[0].value, ast.Call) and len(asg[0].value.args) == 1 and isinstance(asg[0].value.args[0], ast.Name) and asg[0].value.args[0].id == "record"):
-            ok, det = False, "the candidate is not built from the record being characterised"
-            break
-    r.ob(rule + ".validated-return", fi.qualname, ok, det, fi.where())
-    loops = [n for n in fn.body if isinstance(n, ast.For)]
-    # candidates: every direct subclass and -- when it is concrete -- the class itself
-    okc, detc = False, "no candidate loop"
-    if len(loops) == 1 and isinstance(loops[0].iter, ast.Name):
-        cname = loops[0].iter.id
-        srcs = [n.value for n in ast.walk(fn) if isinstance(n, ast.Assign) and any(isinstance(t, ast.Name) and t.id == cname for t in n.targets)]
-        has_sub = any("__subclasses__()" in (fi.module.segment(v) or "") and not isinstance(v, ast.BoolOp) and not isinstance(v, ast.IfExp) for v in srcs)
-        own = False
-        for n in ast.walk(fn):
-            if isinstance(n, ast.Call) and isinstance(n.func, ast.Attribute) and n.func.attr in ("append", "insert") and isinstance(n.func.value, ast.Name) and n.func.value.id == cname \
-                    and n.args and isinstance(n.args[-1], ast.Name) and n.args[-1].id == "cls":
-                # allowed guard: `if not isabstract(cls)` only
-                g = parents.get(id(parents.get(id(n))))
-                if isinstance(g, ast.If):
-                    gs = re.sub(r"\s+", "", fi.module.segment(g.test) or "")
-                    own = gs in ("notisabstract(cls)", "notinspect.isabstract(cls)")
-                elif g is fn:
-                    own = True
-        for v in srcs:
-            s_ = re.sub(r"\s+", "", fi.module.segment(v) or "")
-            if "__subclasses__()" in s_ and ("+[cls]" in s_ or "[cls]+" in s_) and " or " not in (fi.module.segment(v) or ""):
-                own = True
-        okc = has_sub and own
-        detc = "the candidates must be every direct subclass and, when it is concrete, the class itself: subclasses=%s, class itself=%s" % (has_sub, own)
-    r.ob(rule + ".candidates", fi.qualname, okc, detc, fi.where())
-    okl = len(loops) == 1 and not any(isinstance(x, (ast.Break, ast.Continue)) for x in ast.walk(loops[0]))
-    r.ob(rule + ".all-candidates", fi.qualname, okl, "every candidate must be tried until one is valid (one loop, no break/continue)", fi.where())
-    last = fn.body[-1]
-    okr = isinstance(last, ast.Raise) and "RuntimeError" in (fi.module.segment(last) or "")
-    r.ob(rule + ".runtime-error", fi.qualname, okr, "when no candidate accepts the record characterize must raise RuntimeError (fall-through)", fi.where())
-    # no handler swallows or converts
-    okh = not any(isinstance(n, ast.Try) for n in ast.walk(fn))
-    r.ob(rule + ".runtime-error", fi.qualname + "#handlers", okh, "characterize must not catch exceptions", fi.where())
+    ap = p.get_class("moclo.core.parts.AbstractPart")
+    subs = [c for c in p.all_classes() if ap in c.bases][:2]
+    if len(subs) < 2:
+        raise AnalysisError("need two direct subclasses of AbstractPart to evaluate characterize()")
+    S1, S2 = subs
+
+    def class_getattr(fr, base, a, node):
+        if a == "__subclasses__" and base is ap:
+            def sub(fr2, args, kwargs, node2):
+                return AList([S1, S2])
+            return BoundMethod("py", sub, a)
+        return NotImplemented
+
+    def instantiate(fr, ci, args, kwargs, node):
+        if ci in (S1, S2, ap):
+            fr.I.path.effects.append(("candidate", ci.name, args))
+            return AObj(ci, {"record": args[0] if args else None}, name=ci.name)
+        return NotImplemented
+
+    def isabstract_hook(I, f, args, kwargs):
+        return I.path.choose("isabstract", [False, True])
+
+    def is_valid_hook(I, f, args, kwargs):
+        return I.path.choose("valid %s" % args[0].name, [True, False])
+
+    hooks = {"class_getattr": class_getattr, "instantiate": instantiate, "moclo._utils.isabstract": isabstract_hook,
+             "moclo.core._structured.StructuredRecord.is_valid": is_valid_hook}
+
+    def make_args(I):
+        rec = circ_record("W", ident="rec")
+        rec.attrs["id"] = Term("id", Term("rec"))
+        I.rec = rec
+        return (ap, rec), {}
+
+    def post(I, o):
+        name = fi.qualname
+        ch = dict(o.path.choices)
+        abstract = ch.get("isabstract")
+        order = [S1.name, S2.name] + ([] if abstract else [ap.name])
+        out = []
+        if "isabstract" not in ch:
+            out.append((rule + ".candidates", name, False, "whether the class itself is a candidate (it is when it is concrete) is never asked"))
+            order = [S1.name, S2.name]
+        expected = None
+        for c in order:
+            v = ch.get("valid %s" % c)
+            if v is None:
+                # never asked although no earlier candidate was valid
+                expected = ("unasked", c)
+                break
+            if v:
+                expected = ("valid", c)
+                break
+        cands = [e for e in o.path.effects if e[0] == "candidate"]
+        okrec = all(e[2] and e[2][0] is I.rec for e in cands)
+        out.append((rule + ".validated-return", name + "#record", okrec, "every candidate must be built from the record being characterised"))
+        if expected is None:
+            out.append((rule + ".runtime-error", name, o.kind == "raise" and o.value.name == "RuntimeError",
+                        "when no candidate accepts the record characterize must raise RuntimeError: candidates %s, got %r" % (order, o)))
+        elif expected[0] == "unasked":
+            ok = False
+            if o.kind == "return" and isinstance(o.value, AObj) and ch.get("valid %s" % o.value.name) is True and order.index(o.value.name) < order.index(expected[1]):
+                ok = True
+            out.append((rule + ".candidates", name, ok,
+                        "candidate %s is never tried although no earlier candidate accepted the record (candidates must be every direct subclass, then the class itself when concrete): %r" % (expected[1], o)))
+        else:
+            ok = o.kind == "return" and isinstance(o.value, AObj) and o.value.name == expected[1]
+            out.append((rule + ".validated-return", name, ok,
+                        "the first candidate whose is_valid() is true (%s) must be returned: got %r" % (expected[1], o)))
+        return out
+
+    emit(ctx, run_paths(ctx, fi, make_args, [N - 1], hooks=hooks, post=post), fi.where())
+    ctx.report.floor(rule + ".validated-return", 6)
+    ctx.report.floor(rule + ".runtime-error", 2)
 
 
 # ---------------------------------------------------------------------------
